@@ -217,15 +217,15 @@ type MStep struct {
 
 // PathSpec is a generated path with what the generator knows about it.
 type PathSpec struct {
-	Text         string
-	Prefix       string  // text before the trailing functions
-	Funcs        []int   // trailing functions, in order
-	SingleValued bool    // the prefix selects at most one value by construction
-	Model        []MStep // non-nil: the whole prefix lies in the modelled families
-	Fail         string  // non-empty: Parse is expected to fail (template name)
-	UsesFuncs    uint32
+	Text          string
+	Prefix        string  // text before the trailing functions
+	Funcs         []int   // trailing functions, in order
+	SingleValued  bool    // the prefix selects at most one value by construction
+	Model         []MStep // non-nil: the whole prefix lies in the modelled families
+	Fail          string  // non-empty: Parse is expected to fail (template name)
+	UsesFuncs     uint32
 	BothMissingEQ bool // contains ==/!= whose two operands are paths (reach probe)
-	LiteralLeft  bool  // comparison written with the literal or $-path on the left
+	LiteralLeft   bool // comparison written with the literal or $-path on the left
 }
 
 func quoteName(k string, dbl bool) string {
